@@ -156,7 +156,7 @@ def install(E):
         if len(vals) == 3 and vals[2] == 0:
             E.throw("ValueError", "range() arg 3 must not be zero")
         r = range(*vals)
-        if len(r) > E.LOOP_BOUND:
+        if len(r) > max(E.LOOP_BOUND, getattr(E, "loop_bound", None) or 0):
             raise Inconclusive(f"range of {len(r)} exceeds the unwinding bound")
         return r
 
@@ -1282,6 +1282,57 @@ def install_stubs(E):
         return m
 
     S["struct"] = mk_struct
+
+    def mk_copy(E_):
+        m = Module("copy")
+        m.ns["__name__"] = "copy"
+
+        def shallow(x):
+            if isinstance(x, Obj):
+                f = x.cls.lookup("__copy__")
+                if isinstance(f, Func):
+                    return E_.call(f, [x], {})
+                o = E_.mk_obj(x.cls)
+                o.d.update(x.d)
+                return o
+            if isinstance(x, PList):
+                return E_.mk_list(list(x.items))
+            if isinstance(x, PDict):
+                d = E_.mk_dict(x.d)
+                d.sym = [list(p_) for p_ in x.sym]
+                return d
+            if isinstance(x, Bytes):
+                if x.kind == "bytearray":
+                    return E_.mk_bytes(list(x.items), True, "bytearray")
+                return x
+            if x is None or isinstance(x, (int, str, bool, tuple, Str, SymInt, SymBool, EnumVal)):
+                return x
+            raise Unsupported(f"copy.copy of {type(x).__name__}")
+
+        def deep(x, memo=None):
+            if isinstance(x, Obj):
+                f = x.cls.lookup("__deepcopy__")
+                if isinstance(f, Func):
+                    return E_.call(f, [x, E_.mk_dict()], {})
+                o = E_.mk_obj(x.cls)
+                for k, v in x.d.items():
+                    o.d[k] = deep(v)
+                return o
+            if isinstance(x, PList):
+                return E_.mk_list([deep(v) for v in x.items])
+            if isinstance(x, tuple):
+                return tuple(deep(v) for v in x)
+            if isinstance(x, PDict):
+                d = E_.mk_dict({k: deep(v) for k, v in x.d.items()})
+                d.sym = [[k, deep(v)] for k, v in x.sym]
+                return d
+            return shallow(x)
+
+        m.ns["copy"] = Native(shallow, "copy.copy")
+        m.ns["deepcopy"] = Native(deep, "copy.deepcopy")
+        return m
+
+    S["copy"] = mk_copy
 
     def mk_itertools(E_):
         m = Module("itertools")
